@@ -83,7 +83,9 @@ type unencodable struct{} // a list that JSON cannot encode: [1, inf]
 
 var addVals = []any{nil, true, int64(5), 2.5, 0.0, math.Copysign(0, -1), "s", "2021-05-27 06:54:14.760 UTC", []any{int64(1), "a"}, map[string]any{"a": int64(1)}, unencodable{},
 	// lists of plain strings: invalid UTF-8, the line and paragraph separators (what an encoder escapes or replaces)
-	[]any{"a\xffb", "x"}, []any{"l\u2028s", "p\u2029"}, []any{"\xf0\x9f", "ok", ""}, []any{"plain", "strings"}, "NaN", "-Infinity", "1e999", "12abc"}
+	[]any{"a\xffb", "x"}, []any{"l\u2028s", "p\u2029"}, []any{"\xf0\x9f", "ok", ""}, []any{"plain", "strings"}, "NaN", "-Infinity", "1e999", "12abc",
+	// whole numbers that a detour through float64 would round: as a tag they are their decimal text, digit for digit
+	int64(1)<<53 + 1, int64(1700000000123456789), int64(math.MaxInt64), int64(-math.MaxInt64)}
 
 func allOps() []op {
 	var out []op
@@ -399,8 +401,15 @@ func applyObs(t rk.Failer, p *input.Point, o op, observe bool) string {
 		}
 	case "add":
 		if _, wasTag := before.tags[o.K]; wasTag {
-			if _, still := after.tags[o.K]; !still {
+			tv, still := after.tags[o.K]
+			if !still {
 				return fmt.Sprintf("add_key(%s, ...) on a tag: the key is no longer a tag", o.K)
+			}
+			switch x := o.V.(type) {
+			case int64, bool, string:
+				if tv != fmt.Sprint(x) {
+					return fmt.Sprintf("add_key(%s, %s) on a tag: the tag holds %q, want the text %q", o.K, valText(o.V), tv, fmt.Sprint(x))
+				}
 			}
 		} else {
 			got, ok := after.fields[o.K]
@@ -425,6 +434,15 @@ func applyObs(t rk.Failer, p *input.Point, o op, observe bool) string {
 		}
 		if o.Kind == "settagv" && after.tags[o.K] != "tv" {
 			return fmt.Sprintf("%s: tag holds %q", o.Text, after.tags[o.K])
+		}
+		if o.Kind == "settag" {
+			// a field moved to the tags keeps its value as text: exact for whole numbers, booleans and strings
+			switch x := before.fields[o.K].(type) {
+			case int64, bool, string:
+				if after.tags[o.K] != fmt.Sprint(x) {
+					return fmt.Sprintf("%s: the field held %s, the tag holds %q", o.Text, probe.Render(x), after.tags[o.K])
+				}
+			}
 		}
 	case "setmeas":
 		if s, ok := before.fields[o.K].(string); ok {
